@@ -16,8 +16,10 @@ Shift(x, d) == LET t == x[2] + d IN
 ClassSet(kind, x) == { SpecClass(kind, Shift(x, -Eps(x))), SpecClass(kind, x), SpecClass(kind, Shift(x, Eps(x))) }
 TRun == /\ l <= Len(Rec) /\ Ev.ev = "ClassRun" /\ l' = l + 1
         /\ Chk("ClassDependsOnlyOnAngleModulo360_" \o Ev.kind, Ev.class \in ClassSet(Ev.kind, P(Ev.lo)) /\ Ev.class \in ClassSet(Ev.kind, P(Ev.hi)))
+        \* (a run is a maximal sequence of evaluated floats, neighbours or samples, that the implementation puts in one
+        \*  class: whether dense or not it cannot reach across a boundary of the table)
         /\ Chk("NoFloatBetweenIsClassifiedDifferently_" \o Ev.kind,
-               Ev.dense => LET lo == Shift(P(Ev.lo), Eps(P(Ev.lo)))  hi == Shift(P(Ev.hi), -Eps(P(Ev.hi))) IN
+               LET lo == Shift(P(Ev.lo), Eps(P(Ev.lo)))  hi == Shift(P(Ev.hi), -Eps(P(Ev.hi))) IN
                            Lt(hi, lo) \/ ConstantOn(IF Ev.kind = "orient" THEN OrientBounds ELSE TiltBounds, lo, hi))
 \* the parser's tilt classifier and the model's agree on [0, 360]
 TAgree == /\ l <= Len(Rec) /\ Ev.ev = "ClassAgree" /\ l' = l + 1
